@@ -164,15 +164,6 @@ def thriftReadVec {α} (expected : Nat) (elem : List Nat → Except Err (α × L
   | .error e => .error e
   | .ok (n, rest) => readElems elem n rest
 
-/-- work done by `skip_till_depth` on a list: `for _ in 0..size { skip(element) }` where a
-`Bool` element (mapped to `FieldType::BooleanTrue`) is skipped **without reading a byte**.
-Returns the number of loop iterations performed for a list header. -/
-def thriftSkipListIterations (bs : List Nat) : Except Err Nat :=
-  match thriftReadListBegin bs with
-  | .error e => .error e
-  | .ok (li, _) => .ok li.size
-
-
 /-- `skip_vlq`: bytes are consumed until one without the continuation bit; no length limit -/
 def thriftSkipVlq : List Nat → Except Err (List Nat)
   | [] => .error .eof
@@ -181,6 +172,15 @@ def thriftSkipVlq : List Nat → Except Err (List Nat)
 /-- `ThriftSliceInputProtocol::skip_bytes(n)` -/
 def thriftSkipBytes (n : Nat) (bs : List Nat) : Except Err (List Nat) :=
   if bs.length < n then .error .eof else .ok (bs.drop n)
+
+/-- `skip_till_depth` on a list / set whose element type is `ElementType::Bool`: unlike a boolean
+struct field a boolean element occupies one byte, so the list is skipped with
+`skip_bytes(size)`.  `none` = another element type (the per-element loop, not modelled here). -/
+def thriftSkipBoolList (bs : List Nat) : Option (Except Err (List Nat)) :=
+  match thriftReadListBegin bs with
+  | .error e => some (.error e)
+  | .ok (li, rest) =>
+    if li.elemType = THRIFT_ELEM_BOOL then some (thriftSkipBytes li.size rest) else none
 
 /-- `skip_till_depth` for the field types that carry no nested data (bool, byte, i16/i32/i64,
 double, binary, uuid); `none` = a container type, not modelled here -/
